@@ -165,6 +165,15 @@ private:
     Index m_nconv;
     Matrix m_evecs;
 
+    // 1 / sigma_i for the first k singular values, used for u_i = A * v_i / sigma_i (v_i = A' * u_i / sigma_i).
+    // For a zero singular value (zero or rank-deficient matrix; the eigenvalue of A'A can also come back
+    // slightly negative) A * v_i is zero as well, and the column is left zero instead of 0/0
+    Vector inverse_singular_values(Index k) const
+    {
+        const Vector svals = m_eigs->eigenvalues().head(k).cwiseMax(Scalar(0)).cwiseSqrt() * m_op->scale();
+        return (svals.array() > Scalar(0)).select(svals.cwiseInverse(), Vector::Zero(k));
+    }
+
 public:
     // Constructor
     // The reference member is built from the argument itself: if the argument cannot be
@@ -224,7 +233,7 @@ public:
             return m_evecs.leftCols(nu);
         }
 
-        return m_mat * (m_evecs.leftCols(nu).array().rowwise() / (m_eigs->eigenvalues().head(nu).transpose().array().sqrt() * m_op->scale())).matrix();
+        return m_mat * (m_evecs.leftCols(nu) * inverse_singular_values(nu).asDiagonal());
     }
 
     // The converged right singular vectors
@@ -240,7 +249,7 @@ public:
             return m_evecs.leftCols(nv);
         }
 
-        return m_mat.transpose() * (m_evecs.leftCols(nv).array().rowwise() / (m_eigs->eigenvalues().head(nv).transpose().array().sqrt() * m_op->scale())).matrix();
+        return m_mat.transpose() * (m_evecs.leftCols(nv) * inverse_singular_values(nv).asDiagonal());
     }
 };
 
